@@ -197,6 +197,17 @@ pub fn run(ctx: &Ctx) -> Verdict {
         serde_json::json!("each evaluation is one configuration; all its prefix x next-call extensions are executed (typically 100-600 real runs per configuration)"),
     );
     v.subs.push(sub);
+    // long clause lists: the mock is a real tuple of up to 16 clauses, the ordered sequence spans all of it
+    let mut cw = cfg();
+    cw.max_clauses = 16;
+    cw.max_history = 36;
+    cw.guide = 235;
+    v.subs.push(vcore::run_proptest(ctx, "wide-clause-lists", n / 4, gen::scenario(cw), |scn| {
+        check(scn).map(|i| {
+            let k = scn.clauses.len();
+            i.class_if(k >= 9, "clause-tuple-arity>=9").class_if(k >= 13, "clause-tuple-arity>=13")
+        })
+    }));
     v.subs.extend(super::variant_reports(ctx, &["nostd-spin"]));
     v
 }
